@@ -307,7 +307,7 @@ def stored_frame_rule(ctx):
     from ..xeval import FuncInfo, _Bound
 
     repo = ctx.repo
-    r = ctx.rule("R10.8", "beam frame: for any given vertical axis the stored y axis is unit and orthogonal to the fibre, and _Calc_P is orthogonal (P P^T = I), on exact inclined directions", min_instances=4)
+    r = ctx.rule("R10.8", "beam frame: for any given vertical axis the stored y axis is unit and orthogonal to the fibre, and _Calc_P is orthogonal (P P^T = I), on exact inclined directions, collinear given axes included", min_instances=8)
     bm = repo.cls(BEAM_MODEL)
     fset = bm.setters["yAxis"]
     fP = bm.methods["_Calc_P"]
@@ -337,6 +337,11 @@ def stored_frame_rule(ctx):
         ((Q(3, 5), Q(4, 5), Q(0)), (Q(0), Q(3), Q(0))),
         ((Q(2, 3), Q(2, 3), Q(1, 3)), (Q(0), Q(0), Q(1))),
         ((Q(2, 3), Q(-1, 3), Q(2, 3)), (Q(1), Q(1), Q(0))),
+        # a given axis collinear with the fibre: the setter announces that it picks another one
+        ((Q(1), Q(0), Q(0)), (Q(2), Q(0), Q(0))),
+        ((Q(3, 5), Q(4, 5), Q(0)), (Q(3), Q(4), Q(0))),
+        ((Q(0), Q(0), Q(1)), (Q(0), Q(0), Q(1))),
+        ((Q(0), Q(0), Q(-1)), (Q(0), Q(0), Q(5))),
     ]
     for fibre, given in cases:
         r.instance(fn=fset.qualname + ".setter")
